@@ -11,8 +11,8 @@ from pathlib import Path
 from typing import Iterator
 
 VERIF_ROOT: Path = Path(__file__).resolve().parent.parent
-EVIDENCE_DIR: Path = VERIF_ROOT / "evidence"
-REPLAY_DIR: Path = VERIF_ROOT / "replays"
+EVIDENCE_DIR: Path = Path(os.environ.get("RPV_EVIDENCE_DIR") or VERIF_ROOT / "evidence")
+REPLAY_DIR: Path = Path(os.environ.get("RPV_REPLAY_DIR") or VERIF_ROOT / "replays")
 KNOWN_FINDINGS: Path = VERIF_ROOT / "KNOWN_FINDINGS.txt"
 MONITOR_DIR: Path = VERIF_ROOT / "rpv" / "monitors"
 
